@@ -152,6 +152,30 @@ add(
     "DESIGN.md section 4, C15",
 )
 
+add(
+    "C09", "exploration",
+    "property-based testing (Hypothesis) against a reference selection model built from the individual adapters' "
+    "match_to (best-of, rounds, linked rules, actions); API and CLI level",
+    "Adapter lists with engineered near-ties (same sequence under two names/types, prefixes, one-base variants) and "
+    "linked adapters with every required/optional/anchored combination are applied to reads with one or two planted "
+    "adapters under --times 1..4 and every action; AdapterCutter's matches, output and with_adapters and the CLI's "
+    "records/{adapter_name}/{match_sequence}/trimmed decision must equal the documented rule (max score, fewer errors, "
+    "first given; rounds on the remainder; actions once on the original; linked parts).",
+    "Held on everything explored. Index disabled; single adapters searched with the real match_to.",
+    "DESIGN.md section 4, C09",
+)
+add(
+    "C16", "exploration",
+    "property-based testing (Hypothesis) against a reference orientation decision; API (ReverseComplementer, "
+    "PairedReverseComplementer) and CLI level, incl. negative scores and ties",
+    "Reads/pairs with adapters planted forward, reverse-complemented, both or neither (and error rates high enough for "
+    "negative scores): the reverse complement (swapped pair) must be used iff it has a match and a strictly higher "
+    "total score; record, qualities, ' rc'/{rc}, is_rc, matches, counters and read_counts.reverse_complemented are "
+    "compared; reads that kept their orientation must equal the run without --revcomp.",
+    "Held on everything explored after repository fixes F6 and F10.",
+    "DESIGN.md section 4, C16",
+)
+
 NOT_APPLICABLE = []  # filled below for every property without a check
 
 ALL_IDS = [f"C{i:02d}" for i in range(1, 21)]
